@@ -1,4 +1,5 @@
 import LivesimVerif.Model.Ingest
+import LivesimVerif.Lemmas.ChunkSrc
 /-!
 # C16 — The CMAF-ingest sender emits a complete, ordered and faithful stream
 
@@ -172,3 +173,116 @@ example : run (start 7 (some 3)) [.step, .step, .step, .step, .step] =
 example : run (start 7 none) [.step, .del, .step] = [.sent 7 false, .deleted, .conflict] := by decide
 
 end Ingest
+
+/-! ## The chunked-transfer body (low-latency sessions): `cmafSource.Write / Read` (model `Model/ChunkSrc.lean`, op `csrc`) -/
+namespace ChunkSrc
+
+/-- **Faithful prefix**: whatever sizes the HTTP client reads with, and however the chunks are cut into rounds of the
+fixed buffer, the body assembled so far is a prefix of the bytes written — nothing repeated, dropped or reordered. -/
+theorem c16_chunked_body_prefix (s : Src) (ks : List Nat) : ∃ rest, s.stream = s.body ks ++ rest := by
+  induction ks generalizing s with
+  | nil => exact ⟨s.stream, by simp [Src.body]⟩
+  | cons k ks ih =>
+    unfold Src.body
+    cases hr : s.read k with
+    | mk s' o =>
+      cases o with
+      | none => exact ⟨s.stream, by simp⟩
+      | some out =>
+        obtain ⟨hs, _, _⟩ := read_stream s s' k out hr
+        obtain ⟨rest, hrest⟩ := ih s'
+        exact ⟨rest, by simp only [hs, hrest, List.append_assoc]⟩
+
+/-- **Complete at EOF**: when the client has seen `io.EOF`, the body is exactly what was written. -/
+theorem c16_chunked_body_complete (s : Src) (ks : List Nat) (h : none ∈ s.trace ks) : s.body ks = s.stream := by
+  induction ks generalizing s with
+  | nil => simp [Src.trace] at h
+  | cons k ks ih =>
+    unfold Src.body
+    unfold Src.trace at h
+    cases hr : s.read k with
+    | mk s' o =>
+      cases o with
+      | none => simp [(read_eof s s' k hr).1]
+      | some out =>
+        simp only [hr, List.mem_cons] at h
+        obtain ⟨hs, _, _⟩ := read_stream s s' k out hr
+        have := ih s' (h.resolve_left (by simp))
+        simp only [this, hs]
+
+/-- what is left to do, counted in reads: the bytes, plus one (possibly empty) round per `Write` still to start -/
+def Src.todo (s : Src) : Nat := s.stream.length + s.queue.length
+
+/-- **Progress**: a `Read` into a non-empty client buffer (buffer size > 0) either returns EOF or strictly reduces what
+is left — it never returns `(0, nil)` without having consumed a (then empty) `Write`. -/
+theorem read_progress (s s' : Src) (k : Nat) (out : List Nat) (hk : 0 < k) (hc : 0 < s.cap)
+    (h : s.read k = (s', some out)) : s'.todo < s.todo := by
+  obtain ⟨hs, _, _⟩ := read_stream s s' k out h
+  unfold Src.read at h
+  split at h
+  · next he =>
+    have ha : s.avail = [] := by simpa using he
+    cases hr : s.refill with
+    | none => simp [hr] at h
+    | some r =>
+      simp only [hr] at h
+      injection h with h1 h2; injection h2 with h2
+      unfold Src.refill at hr
+      cases hcur : s.cur with
+      | nil =>
+        cases hq : s.queue with
+        | nil => simp [hcur, hq] at hr
+        | cons w q =>
+          simp only [hcur, hq] at hr
+          injection hr with hr; subst hr; subst h1
+          simp only [Src.todo, Src.stream, ha, hcur, hq, List.nil_append, List.flatten_cons, List.length_append,
+            List.length_drop, List.length_take, List.length_cons]
+          omega
+      | cons x c =>
+        simp only [hcur] at hr
+        injection hr with hr; subst hr; subst h1
+        simp only [Src.todo, Src.stream, ha, hcur, List.nil_append, List.length_append, List.length_drop,
+          List.length_take, List.length_cons]
+        omega
+  · next he =>
+    injection h with h1 h2; subst h1
+    have hal : 0 < s.avail.length := by
+      cases hav : s.avail with
+      | nil => simp [hav] at he
+      | cons _ _ => simp
+    simp only [Src.todo, Src.stream, List.length_append, List.length_drop]
+    omega
+
+/-- **The whole body arrives**: with client buffers of positive size, `todo + 1` reads are enough to reach EOF, and the
+body then equals the bytes written, for every buffer size `cap > 0`, every cut into `Write` calls and every read size. -/
+theorem c16_chunked_body_whole (s : Src) (ks : List Nat) (hc : 0 < s.cap) (hk : ∀ k ∈ ks, 0 < k)
+    (hlen : s.todo < ks.length) : s.body ks = s.stream := by
+  apply c16_chunked_body_complete
+  induction ks generalizing s with
+  | nil => simp at hlen
+  | cons k ks ih =>
+    unfold Src.trace
+    cases hr : s.read k with
+    | mk s' o =>
+      cases o with
+      | none => simp
+      | some out =>
+        simp only [List.mem_cons]
+        right
+        have hp := read_progress s s' k out (hk k (by simp)) hc hr
+        obtain ⟨_, _, hcap⟩ := read_stream s s' k out hr
+        exact ih s' (by omega) (fun k' hk' => hk k' (by simp [hk'])) (by simp at hlen; omega)
+
+/-- for a session: the body of the PUT request is the concatenation of the chunks written -/
+theorem c16_chunked_upload (cap : Nat) (writes : List (List Nat)) (ks : List Nat) (hc : 0 < cap)
+    (hk : ∀ k ∈ ks, 0 < k) (hlen : writes.flatten.length + writes.length < ks.length) :
+    (start cap writes).body ks = writes.flatten := by
+  have := c16_chunked_body_whole (start cap writes) ks hc hk (by simpa [start, Src.todo, Src.stream] using hlen)
+  simpa [start, Src.stream] using this
+
+/-- non-vacuity: three chunks (one larger than the buffer, one empty), read 3 bytes at a time through a 4-byte buffer -/
+example : (start 4 [[1, 2, 3, 4, 5, 6], [], [7]]).body [3, 3, 3, 3, 3, 3, 3, 3, 3, 3] = [1, 2, 3, 4, 5, 6, 7] := by decide
+example : (start 4 [[1, 2, 3, 4, 5, 6], [], [7]]).trace [3, 3, 3, 3, 3, 3, 3] =
+    [some [1, 2, 3], some [4], some [5, 6], some [], some [7], none, none] := by decide
+
+end ChunkSrc
